@@ -52,6 +52,12 @@ func c01Devs() []c01Dev {
 	mk("mac-over-ingress^1", func(_ *uint16, _ *uint32, _ *uint8, in, _ *uint16) { *in ^= 1 })
 	mk("mac-over-egress^1", func(_ *uint16, _ *uint32, _ *uint8, _, eg *uint16) { *eg ^= 1 })
 	mk("mac-over-swapped-ifs", func(_ *uint16, _ *uint32, _ *uint8, in, eg *uint16) { *in, *eg = *eg, *in })
+	// the packet's MAC inputs altered while the MAC stays the genuine one (the valid twin is processed right before on
+	// the same processor: nothing cached from it may let these through)
+	d = append(d, c01Dev{"pkt-info-ts+1", func(p *rtr.Pkt, c *rtr.Case, v int, key []byte) { p.Segs[c.V[v].Inf].TS++ }, codeInvalidMAC},
+		c01Dev{"pkt-info-ts-1", func(p *rtr.Pkt, c *rtr.Case, v int, key []byte) { p.Segs[c.V[v].Inf].TS-- }, codeInvalidMAC},
+		c01Dev{"pkt-hop-exp+1", func(p *rtr.Pkt, c *rtr.Case, v int, key []byte) { p.HopRef(c.V[v].Hop).Exp++ }, codeInvalidMAC},
+		c01Dev{"pkt-segid^0x0100", func(p *rtr.Pkt, c *rtr.Case, v int, key []byte) { p.Segs[c.V[v].Inf].SegID ^= 0x0100 }, codeInvalidMAC})
 	return d
 }
 
@@ -101,8 +107,22 @@ func TestC01(t *testing.T) {
 		var mu sync.Mutex
 		check := func(rt *rtr.Router, c *rtr.Case, p *rtr.Pkt, variant string, nDev int, devName string, devHop []int, expCode []int, boundary bool) {
 			raw, lay := p.Serialize()
-			res := rt.Process(raw, c.In)
 			key := c.Name + "|" + variant + "|" + devName
+			// history independence: fresh processors, after a stock packet of another kind, and after the valid twin
+			var twin []byte
+			if nDev > 0 && p.PathType == rtr.PathSCION {
+				twin, _ = c.Pkt.Serialize()
+				if len(twin) != len(raw) {
+					twin = nil
+				}
+			}
+			res, hdiff := rt.ProcessH(raw, c.In, rt.Stock(rt.Cfg.Key, now-100), len(key)+int(raw[len(raw)/2])+int(raw[len(raw)-20]), twin)
+			if hdiff != "" {
+				mu.Lock()
+				r.Violation("result-depends-on-processor-history:"+devClass(devName), map[string]any{"case": key, "difference": hdiff,
+					"packet": fmt.Sprintf("%x", raw), "ingress": fmt.Sprint(c.In)})
+				mu.Unlock()
+			}
 			r.Case(key, true)
 			if res.Panic != nil {
 				r.Violation("panic", map[string]any{"case": key, "panic": fmt.Sprint(res.Panic)})
